@@ -465,12 +465,12 @@ theorem reach_SeqInv {c : Nat} {ac acl : Bool} {prog : List Op} {flt : Fault} {r
     (h : Reach (sys false c ac acl prog flt reuse) s) : SeqInv c ac s :=
   ⟨reach_Str1 h, reach_Low h, reach_Quiet h, reach_Consts h⟩
 
-/-- **Sequential mode: a successful `Clear` always leaves a fresh sorter with no live writer**,
+/-- **A successful `Clear` that finds no live writer leaves a fresh sorter** (either mode),
     whatever came before it (reported errors, cycles given up half-way, any faults). -/
-theorem clear_restores {c : Nat} {ac : Bool} {sp : CState} (hi : SeqInv c ac sp) (hpc : sp.pc = .idle)
+theorem clear_restores_of_quiet {c : Nat} {ac : Bool} {sp : CState} (hs : Str sp) (hl : Low sp)
+    (hk : Consts c ac sp) (hpc : sp.pc = .idle) (hq : ∀ w ∈ sp.writers, w.pc = .done)
     (hok : (clearF sp).2 = .ok) :
     Fresh c ac 1 (finishOp (clearF sp).1 .ok none).m ∧ (∀ w ∈ (finishOp (clearF sp).1 .ok none).writers, w.pc = .done) := by
-  have hq := hi.quiet (Or.inl hpc)
   have hm : (clearF sp).1.m = clear sp.m := by
     rcases clearF_spec sp with ⟨h1, _⟩ | ⟨_, h2⟩
     · rw [hok] at h1; cases h1
@@ -479,25 +479,32 @@ theorem clear_restores {c : Nat} {ac : Bool} {sp : CState} (hi : SeqInv c ac sp)
   refine ⟨?_, ?_⟩
   · show Fresh c ac 1 (clearF sp).1.m
     rw [hm]
-    -- the caller's share of the buffers: exactly one
-    have hcap := hi.str1.cap
-    have hlow := hi.low
+    -- the caller's share of the buffers: at least one, at most two
+    have hcap := hs.cap
+    have hlow := hl
     have h0 : cnt holding sp = 0 := by
       have e : (sp.pc == CPc.finWrite) = false := by rw [hpc]; rfl
       simp only [cnt, e, Bool.false_and, b2n, Bool.false_eq_true, if_false, Nat.add_zero]
       apply List.countP_eq_zero.mpr
       intro w hw; simp [holding, hq w hw]
-    have hwb : sp.writable.buf = [] := wb_nil_of_done (Str_of_Str1 hi.str1) (by rw [hpc]; simp) hq
-    have hk : chunkTok sp = b2n sp.m.chunk.isSome := chunkTok_idle (by rw [hpc]; simp)
+    have hwb : sp.writable.buf = [] := wb_nil_of_done hs (by rw [hpc]; simp) hq
+    have hkk : chunkTok sp = b2n sp.m.chunk.isSome := chunkTok_idle (by rw [hpc]; simp)
     unfold Low tokens at hlow
-    rw [h0, hwb, hk] at hlow hcap
+    rw [h0, hwb, hkk] at hlow hcap
     simp only [List.length_nil, Nat.add_zero] at hlow hcap
-    apply clear_fresh_of hi.consts.1 hi.consts.2 (by omega)
+    apply clear_fresh_of hk.1 hk.2 (by omega)
     intro hp0 hnone
     rw [hp0, hnone] at hlow
     simp [b2n] at hlow
   · show ∀ w ∈ (clearF sp).1.writers, _
     rw [hfr.writers]; exact hq
+
+/-- **Sequential mode: a successful `Clear` always leaves a fresh sorter with no live writer**,
+    whatever came before it. -/
+theorem clear_restores {c : Nat} {ac : Bool} {sp : CState} (hi : SeqInv c ac sp) (hpc : sp.pc = .idle)
+    (hok : (clearF sp).2 = .ok) :
+    Fresh c ac 1 (finishOp (clearF sp).1 .ok none).m ∧ (∀ w ∈ (finishOp (clearF sp).1 .ok none).writers, w.pc = .done) :=
+  clear_restores_of_quiet (Str_of_Str1 hi.str1) hi.low hi.consts hpc (hi.quiet (Or.inl hpc)) hok
 
 /-! ### a fresh sorter with no live writer starts a history afresh -/
 
